@@ -13,6 +13,7 @@ import Driver.Socks
 import Driver.Bpf
 import Driver.Limiter
 import Driver.HttpProbe
+import Driver.Engine
 
 /-!
 Line-protocol driver: one case per input line, `tag \t fields… \t observed`, one answer per line,
@@ -51,6 +52,9 @@ def dispatch (line : String) : String :=
   | "limconc" :: rest => (handleLimConc rest).getD "BAD-CASE\t0"
   | "limwrap" :: rest => (handleLimWrap rest).getD "BAD-CASE\t0"
   | "limrt" :: rest => (handleLimRT rest).getD "BAD-CASE\t0"
+  | "engine" :: rest => (handleEngine rest).getD "BAD-CASE\t0"
+  | "exitdelay" :: rest => (handleExitDelay rest).getD "BAD-CASE\t0"
+  | "cancel" :: rest => (handleCancel rest).getD "BAD-CASE\t0"
   | _ => "BAD-TAG\t0"
 
 partial def loop (h : IO.FS.Stream) (out : IO.FS.Stream) : IO Unit := do
